@@ -164,9 +164,10 @@ func errClass(err error) string {
 	return "other"
 }
 
-// c17Child processes one input in the child process. It is deliberately not
-// wrapped in recover: a panic of the library kills the child exactly as it
-// would kill a client, and the parent classifies the death.
+// c17Child processes one input in the child process. By default nothing is
+// recovered: a panic of the library kills the child exactly as it would kill a
+// client, and the parent classifies the death (see recoverMode below for the
+// economy mode the parent may switch on after two dozen observed deaths).
 func c17Child(in []byte) any {
 	if len(in) < 4 {
 		return childResult{Err: "bad-input"}
